@@ -41,6 +41,8 @@ def _cc_items(api, name, av):
         elif op is sre_c.RANGE:
             items.append(f"IRange {a[0]} {a[1]}")
         elif op is sre_c.CATEGORY:
+            if a is sre_c.CATEGORY_NOT_SPACE and len(av) == 1:        # \S on its own = [^\s]
+                return "RC (CC true [ISpace])"
             cat = {sre_c.CATEGORY_SPACE: "ISpace", sre_c.CATEGORY_WORD: "IWord", sre_c.CATEGORY_DIGIT: "IDigit"}.get(a)
             if cat is None:
                 api.die(f"linerx: {name}: character category {a} is not modelled")
@@ -182,6 +184,63 @@ def _group1_vars(body):
     return out
 
 
+def _import_helper_pattern(api, P, fname):
+    """the helper `fname(lines, start)` decides with ONE pattern on _strip_inline_comment(lines[start]).strip()
+    whether the line is an import (None = not an import) -> that pattern's name"""
+    fn = getattr(P, fname, None)
+    if fn is None:
+        api.die(f"linerx: helper {fname} not found")
+    body = [st for st in ast.parse(textwrap.dedent(inspect.getsource(fn))).body[0].body
+            if not (isinstance(st, ast.Expr) and isinstance(st.value, ast.Constant))]
+    if len(body) < 2 or ast.unparse(body[0]) != "text = _strip_inline_comment(lines[start]).strip()":
+        api.die(f"linerx: {fname}: expected `text = _strip_inline_comment(lines[start]).strip()` first")
+    st = body[1]
+    name = None
+    if isinstance(st, ast.If) and isinstance(st.test, ast.UnaryOp) and isinstance(st.test.op, ast.Not) and not st.orelse:
+        name = _is_match_call(st.test.operand, var="text")
+    if name is None or len(st.body) != 1 or ast.unparse(st.body[0]) != "return None":
+        api.die(f"linerx: {fname}: expected `if not RE_X.match(text): return None`")
+    for later in body[2:]:
+        for sub in ast.walk(later):
+            if isinstance(sub, ast.Return) and (sub.value is None or ast.unparse(sub.value) == "None"):
+                api.die(f"linerx: {fname}: a second `return None` (the line would be handed on although the pattern matched)")
+    return name
+
+
+TAIL = {"benign_eq": [], "benign_rx": [], "rejects": False, "expr_failure_rejects": False}
+
+
+def _tail_facts(api, expr_if, rest):
+    """what the end of the loop does with a line that no recogniser took: `rest` = the statements after
+    `if expr_node is not None:`.  Two shapes are read: the unrepaired one (hook call; i += 1 - the line is dropped)
+    and `if line == "..." or RE_X.match(line): ... continue` followed by `raise ValueError(...)`."""
+    facts = {"benign_eq": [], "benign_rx": [], "rejects": False, "expr_failure_rejects": False}
+    # inside the expression branch: what happens when _to_c_expr refuses the expression
+    for st in ast.walk(expr_if):
+        if isinstance(st, ast.Try) and st.body and ast.unparse(st.body[0]) == "expr_c = _to_c_expr(line, vars, ctx)":
+            hb = st.handlers[0].body if len(st.handlers) == 1 else []
+            facts["expr_failure_rejects"] = (len(hb) == 1 and isinstance(hb[0], ast.Raise) and hb[0].exc is not None
+                                             and ast.unparse(hb[0].exc).startswith("ValueError("))
+    if (len(rest) == 2 and ast.unparse(rest[0]).startswith("_verif_note_ignored(") and ast.unparse(rest[1]) == "i += 1"):
+        return facts
+    if len(rest) == 2 and isinstance(rest[0], ast.If) and not rest[0].orelse and _ends_with_continue(rest[0].body) \
+            and isinstance(rest[1], ast.Raise) and rest[1].exc is not None and ast.unparse(rest[1].exc).startswith("ValueError("):
+        test = rest[0].test
+        vals = test.values if isinstance(test, ast.BoolOp) and isinstance(test.op, ast.Or) else [test]
+        for v in vals:
+            name = _is_match_call(v)
+            if name is not None:
+                facts["benign_rx"].append(name)
+            elif (isinstance(v, ast.Compare) and ast.unparse(v.left) == "line" and len(v.ops) == 1 and isinstance(v.ops[0], ast.Eq)
+                  and isinstance(v.comparators[0], ast.Constant) and isinstance(v.comparators[0].value, str)):
+                facts["benign_eq"].append(v.comparators[0].value)
+            else:
+                api.die("linerx: _parse_simple_lines: unexpected test in the no-device-meaning branch of the tail: " + ast.unparse(v)[:80])
+        facts["rejects"] = True
+        return facts
+    api.die("linerx: _parse_simple_lines: unexpected tail after the expression-statement branch")
+
+
 def extract_chain(api, P):
     """-> list of steps: ("imports", [names]) | ("eq", text) | ("prefix", text) | ("rx", name, guard_set or None)
        | ("search", name) | ("assign",) | ("tail",)"""
@@ -235,6 +294,13 @@ def extract_chain(api, P):
             tgt = st.targets[0].id
             nxt = body[k + 1] if k + 1 < len(body) else None
             name = _is_match_call(st.value)
+            # import_end = _import_end(snippet, i); if import_end is not None: i = import_end; continue
+            if (isinstance(st.value, ast.Call) and isinstance(st.value.func, ast.Name) and ast.unparse(st.value).endswith("(snippet, i)")
+                    and isinstance(nxt, ast.If) and ast.unparse(nxt.test) == f"{tgt} is not None" and not nxt.orelse
+                    and [ast.unparse(x) for x in nxt.body] == [f"i = {tgt}", "continue"]):
+                steps.append(("imports", [_import_helper_pattern(api, P, st.value.func.id)]))
+                k += 2
+                continue
             if tgt == "m" and name is not None:
                 if not (isinstance(nxt, ast.If) and ast.unparse(nxt.test) == "m" and not nxt.orelse):
                     api.die(f"linerx: _parse_simple_lines: `m = {name}.match(line)` is not followed by `if m:`")
@@ -271,9 +337,10 @@ def extract_chain(api, P):
                 continue
         if isinstance(st, ast.Try) and ast.unparse(st.body[0]) == "expr_node = ast.parse(line, mode='eval').body":
             rest = body[k + 1:]
-            if not (len(rest) == 3 and isinstance(rest[0], ast.If) and ast.unparse(rest[0].test) == "expr_node is not None"
-                    and ast.unparse(rest[1]).startswith("_verif_note_ignored(") and ast.unparse(rest[2]) == "i += 1"):
+            if not (rest and isinstance(rest[0], ast.If) and ast.unparse(rest[0].test) == "expr_node is not None"):
                 api.die("linerx: _parse_simple_lines: unexpected tail after the expression-statement branch")
+            TAIL.clear()
+            TAIL.update(_tail_facts(api, rest[0], rest[1:]))
             steps.append(("tail",))
             k = len(body)
             continue
@@ -331,4 +398,13 @@ def generate(api):
         elif s[0] == "tail":
             lines.append("StTail")
     out.append("\n(* the dispatch loop of _parse_simple_lines, in source order *)\nDefinition chain : list step := [\n  " + ";\n  ".join(lines) + "\n].\n")
+    out.append("\n(* the end of the loop: lines without a meaning on the device (compared / matched), and whether anything else - "
+               "and an expression _to_c_expr refuses - raises *)\n")
+    out.append("Definition tail_benign_eq : list text := [" + "; ".join(api.ctext(t) for t in TAIL["benign_eq"]) + "].\n")
+    for n in TAIL["benign_rx"]:
+        if n not in ids:
+            api.die(f"linerx: tail pattern {n} is not a module-level RE_* pattern")
+    out.append("Definition tail_benign_rx : list (Z * rx) := [" + "; ".join(f"({ids[n]}, {n})" for n in TAIL["benign_rx"]) + "].\n")
+    out.append(f"Definition tail_rejects : bool := {'true' if TAIL['rejects'] else 'false'}.\n")
+    out.append(f"Definition tail_expr_failure_rejects : bool := {'true' if TAIL['expr_failure_rejects'] else 'false'}.\n")
     api.write_if_changed(api.GEN / "LineRx.v", "".join(out))
